@@ -97,6 +97,10 @@ func discoverPools(c *Ctx) []*poolDef {
 				continue
 			}
 			pd := byRecv[fn.Pkg.Pkg.Path()+"|"+Desc(Args(cl)[0])]
+			if pd == nil && strings.HasSuffix(Desc(Args(cl)[0]), ".p") {
+				// the buffer pool's inner pool reached through another holder (b.pool.p from the buffer itself)
+				pd = byRecv[fn.Pkg.Pkg.Path()+"|p.p"]
+			}
 			if pd == nil {
 				continue
 			}
